@@ -39,3 +39,78 @@ def c04(tier, seed):
     rep.assumptions = list(ASSUME)
     run_models(rep, c04_models(tier), clauses_of("C04"))
     return rep.finish()
+
+
+def bar_candidates(n, extras=True):
+    """a quote for A at every one of the first n grid points (ids 1..n) + extra quotes around the latency bound"""
+    cs = [cand(G[k], "q", "A", 100 + 4 * k, 102 + 4 * k) for k in range(n)]
+    if extras:
+        for k in range(n - 1):
+            cs.append(cand(G[k] + L, "q", "A", 101 + 4 * k, 101 + 4 * k))        # exactly at the bound
+            cs.append(cand(G[k] + L + 1, "q", "A", 103 + 4 * k, 105 + 4 * k))    # just beyond
+        cs.append(cand(G[0] + 1, "q", "B", 50, 52))
+        cs.append(cand(G[1] + 10, "x"))
+    return cs
+
+
+C08_INV = ["FifoDelay", "ExecPricedAtLatencyCut", "LatencyRule", "StampIsLatest", "StrictStamps", "NullActionExecutes"]
+
+
+def c08_models(tier, null="in_space"):
+    n = 4 if tier == "quick" else 5
+    cs = bar_candidates(n)
+    modes = [(False, -1)] if tier == "quick" else [(False, -1), (True, -1)]
+    return [env_model("fifo", G[:n], cs, range(1, n + 1), 2 if tier == "quick" else 3, [0, L], [FOLD_ALL], modes,
+                      delays=(0, 1, 2), spaces=("box", "discrete"), maxcalls=n, reset_anywhere=False,
+                      invariants=C08_INV, trade=True, null=null)]
+
+
+def c08(tier, seed):
+    rep = core.Report("C08", tier, seed)
+    rep.assumptions = list(ASSUME) + ["bar-shaped stream: a quote for the traded contract at every timestep; submitted "
+                                      "actions are pairwise distinct weights so that any drop, duplication or reordering "
+                                      "shows in the executed allocation"]
+    run_models(rep, c08_models(tier), clauses_of("C08"))
+    return rep.finish()
+
+
+C15_INV = ["InFold", "Consecutive", "ExactLength", "StartSetExact"]
+
+
+def c15_models(tier):
+    n = 5 if tier == "quick" else 6
+    # sparse events: some grid points bear no event, so "event-bearing timesteps" differs from the grid
+    cs = [cand(G[k], "q", "A", 100 + k, 100 + k) for k in range(n)] + [cand(G[1] + 3600, "x"), cand(G[0] - 60, "x")]
+    folds = [FOLD_ALL, (G[1], G[3]), (G[0] + 1, G[n - 2] + 5), (G[2], G[2])]
+    eplens = (0, 1, 2, 3, 4) if tier == "quick" else (0, 1, 2, 3, 4, 5, 6)
+    return [env_model("folds", G[:n], cs, [1], 4 if tier == "quick" else n + 1, [0], folds, [(False, -1), (True, -1)],
+                      eplens=eplens, maxcalls=5 if tier == "quick" else 7, reset_anywhere=False,
+                      invariants=C15_INV, properties=["DoneIsAbsorbing"])]
+
+
+def c15(tier, seed):
+    rep = core.Report("C15", tier, seed)
+    rep.assumptions = list(ASSUME) + ["the constructor argument episode_length=n is what is claimed as 'n decisions'; "
+                                      "reset(episode_length=k) passes k un-incremented and is not claimed"]
+    run_models(rep, c15_models(tier), clauses_of("C15"))
+    from . import walkforward
+    walkforward.check(rep, tier)
+    return rep.finish()
+
+
+def c17_models(tier):
+    n = 4
+    cs = bar_candidates(n, extras=False)
+    bads = [(0, "ok")] + [(at, cls) for at in (1, 2, 3) for cls in ("shape", "below", "above", "nan", "index")]
+    return [env_model("malformed", G[:n], cs, range(1, n + 1), 0, [0], [FOLD_ALL], [(False, -1)],
+                      delays=(0, 1, 2), spaces=("box", "discrete", "boxcash", "boxlots"), bads=bads, maxcalls=n,
+                      reset_anywhere=False, trade=True,
+                      invariants=["MalformedNeverExecutes", "RejectedByDueStep", "MalformedRejected", "FifoDelay"])]
+
+
+def c17(tier, seed):
+    rep = core.Report("C17", tier, seed)
+    rep.assumptions = list(ASSUME) + ["malformed classes: wrong shape, below / above the bounds, NaN, invalid or non-integer "
+                                      "index; spaces: Box weights, Box with a cash entry, Box in numbers of contracts, Discrete"]
+    run_models(rep, c17_models(tier), clauses_of("C17"))
+    return rep.finish()
